@@ -104,6 +104,19 @@ def f_regex(a):
         m = interegular_to_wfsa(pat, charset=charset)
     if charset != set(cs):
         raise AssertionError("interegular_to_wfsa changed the character set it was given")
+    for op in a.get("used", ()):            # the automaton is used as an operand before it is inspected: it stays itself
+        if op in ("kleene_plus", "star"):
+            getattr(m, op)()
+        elif op == "add":
+            m + m
+        elif op == "mul":
+            m * m
+        elif op == "min":
+            m.min
+        elif op == "epsremove":
+            m.epsremove
+        elif op == "to_bytes":
+            m.to_bytes()
     strs = [p for n in range(L + 1) for p in itertools.product(cs, repeat=n)]
     acc = [[tname(c) for c in s] for s in strs if m(s) > 0]
     re_acc = [[tname(c) for c in s] for s in strs if pyre.fullmatch(pat, "".join(s))]
@@ -111,7 +124,27 @@ def f_regex(a):
     fold = [[tname(c), [tname(x) for x in universe if x != c and pyre.fullmatch("(?i:" + pyre.escape(c) + ")", x)]]
             for c in universe]
     M = aops.wfsa_proj(m)
-    return {"op": "regex", "pat": pat, "re": name_re(r), "cs": [tname(c) for c in cs], "fold": fold, "L": L, "acc": acc,
+    extra = {}
+    if a.get("long"):
+        # a long walk through the automaton's own arcs, stopped at a final state when one is reached late enough
+        nm = aops._index(m)
+        byname = {v: k for k, v in nm.items()}
+        finals = {q for q, _ in M["F"]}
+        q, walk = (M["I"][0][0] if M["I"] else None), []
+        k = 0
+        while q is not None and len(walk) < a["long"] + 15:
+            outs = sorted([r for r in M["arcs"] if r[0] == q], key=lambda r: (r[1], r[2]))
+            if not outs or (len(walk) >= a["long"] and q in finals):
+                break
+            r = outs[(k * 7 + len(walk)) % len(outs)]
+            k += 1
+            walk.append(r[1])
+            q = r[2]
+        if a.get("spoil") and walk:
+            walk[len(walk) // 2] = tname(cs[0]) if walk[len(walk) // 2] != tname(cs[0]) else tname(cs[-1])
+        from gops import unt
+        extra = {"long": walk, "longpos": int(m(tuple(unt(c) for c in walk)) > 0)}
+    return {**extra, "op": "regex", "pat": pat, "re": name_re(r), "cs": [tname(c) for c in cs], "fold": fold, "L": L, "acc": acc,
             "re_acc": re_acc, "M": M}
 
 
